@@ -394,6 +394,8 @@ CHECKS["C20"]["thorough"] = CHECKS["C20"]["thorough"] + [
     {"harness": "VerifC20Intf", "params": {"intfkind": 0, "typ": 1, "npre": [0, 1], "na": [1, 2], "nb": 2, "nc": [1, 2], "intf_line": lock_lines(_C20_CACHE, r"storeOrAmendAttesterDuties|fetchAttesterDuties")}, "prune": 1000, "timeout_ms": 300000, "case_timeout_s": 6000},
     {"harness": "VerifC20Intf", "params": {"intfkind": [0, 1], "typ": 0, "npre": 1, "na": 2, "nb": 2, "nc": 1, "intf_line": lock_lines(_C20_CACHE, r"storeOrAmendProposerDuties|fetchProposerDuties")}, "prune": 1000, "timeout_ms": 300000, "case_timeout_s": 6000},
     {"harness": "VerifC20Cache", "params": {"k": 2, "ops": 0, "eps": [0, 1], "lens": [5, 6, 9, 10], "typ": 0, "mix": 0, "two": 1}, "prune": 1000, "timeout_ms": 300000},
+    # a validator with two proposals that is ADDED to a cached epoch by a second, larger request; a third request is then served from the cache
+    {"harness": "VerifC20Cache", "params": {"k": 3, "ops": 0, "eps": 0, "lens": [41, 37], "typ": 0, "mix": 0, "two": 1}, "prune": 1000, "timeout_ms": 300000, "case_timeout_s": 6000},
     {"harness": "VerifC20Intf", "params": {"intfkind": [1, 2], "typ": [0, 1, 2], "npre": 1, "na": 2, "nb": 0, "nc": [1, 2], "intf_line": lock_lines(_C20_CACHE, r"storeOrAmend(Attester|Proposer|Sync)Duties")}, "prune": 1000, "timeout_ms": 300000, "case_timeout_s": 6000},
     {"harness": "VerifC20Intf", "params": {"intfkind": [0, 2], "typ": 2, "npre": 1, "na": 2, "nb": 2, "nc": 1, "intf_line": lock_lines(_C20_CACHE, r"storeOrAmendSyncDuties|fetchSyncDuties")}, "prune": 1000, "timeout_ms": 300000, "case_timeout_s": 6000},
 ]
